@@ -22,17 +22,22 @@ def alphabet(keys):
     return ops
 
 
-def concretise(seq):
-    """give every store a fresh value"""
+def concretise(seq, nil_every=0):
+    """give every store a fresh value; with nil_every = k every k-th stored value is the nil pointer (a legal value: a key
+    holding nil is a live key)"""
     out = []
     n = 0
     for op in seq:
         if op[0] in "SO":
             n += 1
-            out.append(f"{op}:{n}")
+            out.append(f"{op}:nil" if nil_every and n % nil_every == 0 else f"{op}:{n}")
         else:
             out.append(op)
     return out
+
+
+def VAL(tok):
+    return "NIL" if tok == "nil" else int(tok)
 
 
 def spec_check(ops, outs):
@@ -44,12 +49,12 @@ def spec_check(ops, outs):
         if f[0] == "L":
             want = f"v={d[f[1]]}" if f[1] in d else "none"
         elif f[0] == "S":
-            d[f[1]] = int(f[2]); want = "-"
+            d[f[1]] = VAL(f[2]); want = "-"
         elif f[0] == "O":
             if f[1] in d:
                 want = f"los={d[f[1]]},true"
             else:
-                d[f[1]] = int(f[2]); want = f"los={f[2]},false"
+                d[f[1]] = VAL(f[2]); want = f"los={VAL(f[2])},false"
         elif f[0] == "D":
             want = f"v={d.pop(f[1])}" if f[1] in d else "none"
         elif f[0] == "X":
@@ -78,7 +83,9 @@ def main(tier):
         nrand = 20000 if tier == "thorough" else 3000
         alpha3 = alphabet(("a", "b", "c")) + ["X:a", "X:b"]
         for _ in range(nrand):
-            seqs.append(concretise([r.choice(alpha3) for _ in range(r.randint(6, 30))]))
+            seqs.append(concretise([r.choice(alpha3) for _ in range(r.randint(6, 30))], nil_every=r.choice([0, 0, 0, 1, 2, 3])))
+        for seq in itertools.product(alphabet(KEYS2), repeat=3):
+            seqs.append(concretise(list(seq) + ["N", "R", "L:a", "L:b"], nil_every=1))
         # directed: histories that expunge, unexpunge and promote
         seqs.append(concretise("S:a R D:a S:b S:a R N L:a".split()))
         seqs.append(concretise("S:a S:b R D:a N".split()))
